@@ -19,7 +19,7 @@ pub fn one(ctx: &mut Ctx, x: &[u8], m: &Msg, shape: &str) {
     let viol = |ctx: &mut Ctx, cls: &str, detail: String| {
         ctx.violation("C06", format!("compress|{}", cls), format!("{}: {}", shape, detail), x);
     };
-    let c = match guarded(runaway_budget(x.len()) * 40, || Compress::compress(x).map_err(|e| e.to_string())) {
+    let c = match guarded(crate::mon::work_budget(x.len()), || Compress::compress(x).map_err(|e| e.to_string())) {
         Err(p) => {
             let kind = if p.is_budget() { "non-termination" } else { "panic" };
             return viol(ctx, &format!("{}|{}", kind, p.class()), p.msg.clone());
@@ -56,7 +56,7 @@ pub fn one(ctx: &mut Ctx, x: &[u8], m: &Msg, shape: &str) {
         return viol(ctx, cls, format!("{} :: {}", diff, short(&c)));
     }
     // decompressing the result gives the input back, up to name case
-    match guarded(runaway_budget(c.len()) * 4, || Compress::uncompress(&c).map_err(|e| e.to_string())) {
+    match guarded(crate::mon::work_budget(c.len()) * 4, || Compress::uncompress(&c).map_err(|e| e.to_string())) {
         Ok(Ok(u)) => {
             if u.len() != x.len() {
                 return viol(ctx, "roundtrip-length", format!("{} vs {}", u.len(), x.len()));
@@ -95,7 +95,14 @@ pub const STRESS: &[&str] = &[
     "rdata-names-all-types",
     "many-identical",
     "near-equal-names",
+    "names-beyond-65535",
 ];
+
+/// Which family a stress case belongs to: spread so that no family lands on a fixed subset of the shards
+/// (case k runs on shard k % nshards).
+pub fn stress_family(case: u64) -> usize {
+    ((case.wrapping_mul(0x9E37_79B9_7F4A_7C15) >> 33) as usize) % STRESS.len()
+}
 
 /// Stress families of the property's quantifier, as abstract messages (encoded pointer-free).
 pub fn stress(rng: &mut Rng, fam: usize) -> Msg {
@@ -225,6 +232,28 @@ pub fn stress(rng: &mut Rng, fam: usize) -> Msg {
                 m.sec[rng.below(3)].push(a_rec(n.clone()));
             }
         }
+        11 => {
+            // output larger than 64 KiB: suffixes first seen at positions 65536.. (which wrap to small numbers in
+            // 16 bits) are used again afterwards, next to suffixes seen early
+            let early = Name(vec![lab(rng), b"early".to_vec(), b"example".to_vec()]);
+            m.sec[0].push(a_rec(early.clone()));
+            let before = 12 + m.question[0].name.wire_len() + 4 + early.wire_len() + 14;
+            let want = if rng.chance(1, 2) { 65536 + rng.below(300) } else { rng.range(65536, 81919) };
+            let mut left = want.saturating_sub(before);
+            while left > 0 {
+                let chunk = left.min(60000).max(16);
+                let payload = chunk.saturating_sub(5 + 10).max(1);
+                m.sec[0].push(rec(Name::from_labels(&[b"pad"]), T_TXT, RData::Opaque(vec![0xc0; payload])));
+                left = left.saturating_sub(payload + 15);
+            }
+            let far = Name(vec![lab(rng), b"late".to_vec(), b"example".to_vec()]);
+            for _ in 0..rng.range(2, 6) {
+                m.sec[0].push(a_rec(far.clone()));
+                m.sec[1].push(rec(far.clone(), T_NS, RData::Name(Name(vec![b"ns".to_vec()]).concat(&far))));
+                m.sec[1].push(rec(early.clone(), T_NS, RData::Name(Name(vec![b"ns".to_vec()]).concat(&early))));
+            }
+            m.sec[2].push(a_rec(m.question[0].name.clone()));
+        }
         _ => {
             // names that differ from each other in exactly one byte (one bit, one step, or the split into
             // labels): only ASCII-case variants may share a suffix entry, everything else must stay distinct
@@ -304,7 +333,7 @@ pub fn run(ctx: &mut Ctx) {
         }
         ctx.begin_case(case);
         let mut rng = Rng::for_case(ctx.seed, "c06-stress", 0, case);
-        let fam = (case as usize) % STRESS.len();
+        let fam = stress_family(case);
         let msg = stress(&mut rng, fam);
         let x = msg.encode_literal();
         match refparse(&x, STRICT) {
